@@ -823,6 +823,14 @@ func KeyedReply(q []byte, ttl uint32) []byte {
 
 // EnableKeyed makes every fake upstream answer unscripted questions with KeyedReply after a
 // pseudo-random delay up to maxDelay (derived from the query bytes, so replies are reordered).
+// SetKeyedAllowed installs the set of question keys the clients may ask (under the environment's lock: the fake
+// upstreams' goroutines read it on every query, also on queries that are still arriving from an earlier case).
+func (e *RouterEnv) SetKeyedAllowed(m map[string]bool) {
+	e.mu.Lock()
+	e.KeyedAllowed = m
+	e.mu.Unlock()
+}
+
 func (e *RouterEnv) EnableKeyed(ttl uint32, maxDelay time.Duration) {
 	e.mu.Lock()
 	e.keyedTTL = ttl
